@@ -2,8 +2,13 @@ package main
 
 // sort.Slice(x, less): assumed to permute the elements of slice x in place. The permutation is
 // a fresh function perm with, for every index i of the slice, 0 <= perm(i) < len and
-// new[i] == old[perm(i)], perm injective on the range. Nothing is assumed (or proved) about the
-// resulting order: the less closure is not interpreted.
+// new[i] == old[perm(i)], perm injective on the range, with an inverse inv (perm(inv(j)) == j).
+// Nothing is assumed (or proved) about the resulting order: the less closure is not interpreted.
+//
+// sort.Sort(data) / sort.Stable(data), possibly through sort.Reverse: when the dynamic value of data is
+// a pointer to (or a value of) a struct with exactly one slice-typed field whose Len and Swap
+// methods are under contract (Len returns the length of that field, Swap exchanges two of its
+// elements and nothing else), the call is modelled as the same in-place permutation of that field.
 
 import (
 	"fmt"
@@ -18,13 +23,22 @@ func (c *FnCtx) sortSlice(st *State, args []Val) bool {
 	if !ok || v.K != KSlice {
 		return false
 	}
+	c.permuteSlice(st, v)
+	c.note("sort.Slice: assumed to permute the slice in place; the resulting order (less closure) is not modelled")
+	return true
+}
+
+func (c *FnCtx) permuteSlice(st *State, v Val) {
 	et := v.T.Underlying().(*types.Slice).Elem()
 	c.nfresh++
 	perm := sym(fmt.Sprintf("sortperm!%d", c.nfresh))
+	inv := sym(fmt.Sprintf("sortinv!%d", c.nfresh))
 	c.declareFun(perm, []string{"Int"}, "Int")
+	c.declareFun(inv, []string{"Int"}, "Int")
 	n, off, base := v.Len(), v.Off(), v.Base()
 	st.assume(fmt.Sprintf("(forall ((i Int)) (! (=> (and (<= 0 i) (< i %s)) (and (<= 0 (%s i)) (< (%s i) %s))) :pattern ((%s i))))", n, perm, perm, n, perm))
 	st.assume(fmt.Sprintf("(forall ((i Int) (j Int)) (! (=> (and (<= 0 i) (< i %s) (<= 0 j) (< j %s) (not (= i j))) (not (= (%s i) (%s j)))) :pattern ((%s i) (%s j))))", n, n, perm, perm, perm, perm))
+	st.assume(fmt.Sprintf("(forall ((j Int)) (! (=> (and (<= 0 j) (< j %s)) (and (<= 0 (%s j)) (< (%s j) %s) (= (%s (%s j)) j))) :pattern ((%s j))))", n, inv, inv, n, perm, inv, inv))
 	for _, lf := range leavesOf(et) {
 		name := arrName("M", elemKey(et), lf.Path, lf.Sort)
 		arr := c.heapGet(st.heap, name)
@@ -33,8 +47,64 @@ func (c *FnCtx) sortSlice(st *State, args []Val) bool {
 		// inside the slice: permuted; outside: unchanged
 		st.assume(fmt.Sprintf("(forall ((j Int)) (! (= (select %s j) (ite (and (<= %s j) (< j (+ %s %s))) (select %s %s) (select %s j))) :pattern ((select %s j))))",
 			row, off, off, n, oldRow, slot(off, "("+perm+" (- j "+off+"))"), oldRow, row))
+		// redundant instance, triggered by a mention of an element of the unsorted slice: it sits at
+		// position inv(k) afterwards
+		oldElem := sel(oldRow, slot(off, "k"))
+		st.assume(fmt.Sprintf("(forall ((k Int)) (! (=> (and (<= 0 k) (< k %s)) (and (<= 0 (%s k)) (< (%s k) %s) (= (select %s %s) %s))) :pattern (%s)))",
+			n, inv, inv, n, row, slot(off, "("+inv+" k)"), oldElem, oldElem))
 		c.heapSet(st, name, sto(arr, base, row))
 	}
-	c.note("sort.Slice: assumed to permute the slice in place; the resulting order (less closure) is not modelled")
+}
+
+// sortInterface models sort.Sort / sort.Stable on a struct with one slice field (see the file comment).
+func (c *FnCtx) sortInterface(st *State, args []Val) bool {
+	if len(args) < 1 {
+		return false
+	}
+	v, ok := c.boxed[args[0].S]
+	if !ok {
+		return false
+	}
+	var stt types.Type
+	var obj string
+	switch v.K {
+	case KRef:
+		pt, ok := v.T.Underlying().(*types.Pointer)
+		if !ok {
+			return false
+		}
+		stt, obj = pt.Elem(), v.S
+	default:
+		return false
+	}
+	s, ok := stt.Underlying().(*types.Struct)
+	if !ok {
+		return false
+	}
+	field := -1
+	for i := 0; i < s.NumFields(); i++ {
+		if _, isSlice := s.Field(i).Type().Underlying().(*types.Slice); isSlice {
+			if field >= 0 {
+				return false
+			}
+			field = i
+		}
+	}
+	if field < 0 {
+		return false
+	}
+	key := typeName(stt)
+	if c.eng.cs.Funcs[key+".Swap"] == nil || c.eng.cs.Funcs[key+".Len"] == nil {
+		return false
+	}
+	c.usedContracts[key+".Swap"] = c.eng.cs.Funcs[key+".Swap"]
+	c.usedContracts[key+".Len"] = c.eng.cs.Funcs[key+".Len"]
+	a := &Addr{Space: "F", Key: key, Idx: []string{obj}, Path: s.Field(field).Name(), T: s.Field(field).Type()}
+	sv := c.load(st, a)
+	if sv.K != KSlice {
+		return false
+	}
+	c.permuteSlice(st, sv)
+	c.note("sort.Sort: modelled as an in-place permutation of " + shortCallee(key) + "." + s.Field(field).Name() + " (by the Len/Swap contracts of the sorted type); the resulting order (Less) is not modelled")
 	return true
 }
